@@ -31,6 +31,11 @@
                 self.__strong_cache.popitem(last=False)                 xEvict
                                                                         xRel
         return rv                                                       xRet
+    * exceptional exit: when the constructor raises under the lock (`tzoffset('A','x')`, `tzstr('1')`,
+      `gettz(b'x')`: class `Res.raises`) the next statement is the `with` exit `xRelX`, which releases
+      the lock and ends the call with the exception recorded (`Ev.exc`)
+    * gettz names may resolve to an EXISTING immortal object (`Res.shared slot`: the constant tz.UTC,
+      a vendored ZoneInfoFile entry): `nocache` / the miss path return it instead of constructing
     * `GettzFunc.set_cache_size`  sAcq sSet sLoop sPop sRel;  `GettzFunc.cache_clear`  cAcq cWeak cStrong cRel
     * `_TzFactory.instance` / `GettzFunc.nocache`    fAlloc fInit fRet   (never touch the maps)
     * `_TzSingleton.__call__`                                            (kind `single`)
@@ -68,10 +73,19 @@ abbrev Tid := Nat
 inductive Kind | lru | gettz | single
   deriving DecidableEq, Repr
 
-/-- how `gettz.nocache(name)` resolves a name: a cacheable zone, a zone that is deliberately
-not cached (`tzlocal`, or `name is None`), or `None` -/
-inductive Res | zone | uncached | none
+/-- what constructing the object for a key does.  For `gettz.nocache(name)`: a new cacheable zone
+(`tzfile(path)`, `tzstr.instance(name)`), a new zone that is deliberately not cached (`tzlocal`, or
+`name is None`), `None`, an EXISTING immortal object shared by every request that resolves to the
+same slot (slot 0 = the module constant `tz.UTC` for `GMT` / `UTC` without a file; the other slots =
+the entries of the vendored `ZoneInfoFile`), or an exception (`gettz(b'x')`: TypeError).  For the
+tzoffset / tzstr factories only `raises` matters (`tzoffset('A', 'x')`: TypeError, `tzstr('1')`:
+ValueError): every other class constructs a new object. -/
+inductive Res | zone | uncached | none | shared (slot : Nat) | raises
   deriving DecidableEq, Repr
+
+def Res.slot? : Res → Option Nat
+  | .shared sl => some sl
+  | _ => Option.none
 
 inductive Op
   | call (k : Key)        -- `cls(...)` / `gettz(name)` / `tzutc()`
@@ -84,6 +98,7 @@ inductive Pc
   | idle
   | lAcq | lGet | lTest | lAlloc | lInit | lSdRead | lSdWrite
   | xTouch | xLen | xEvict | xRel | xRet
+  | xRelX                                   -- `with` exit while an exception propagates
   | gAcq | gGet | gTest | gAlloc | gInit | gCheck | gStore | gRelE | gRetE
   | sAcq | sSet | sLoop | sPop | sRel
   | cAcq | cWeak | cStrong | cRel
@@ -117,6 +132,7 @@ structure Ev where
   key : Key
   val : Option Id
   cached : Bool          -- came out of the cached path (and was handed to `held`)
+  exc : Bool := false    -- the call raised instead of returning
   deriving DecidableEq, Repr
 
 structure Glob where
@@ -129,6 +145,7 @@ structure Glob where
   inited : List Id := []
   epoch : Nat := 0
   single : Option Id := none
+  shared : List (Nat × Id) := []     -- immortal shared objects by slot (module constant UTC, vendored entries)
   log : List Ev := []
 
 structure State where
@@ -170,7 +187,9 @@ def tstep (kd : Kind) (res : Key → Res) (t : Tid) (g : Glob) (th : Thread) : O
     if g.lock = none then some ({ g with lock := some t }, { th with pc := .lGet }) else none
   | .lGet => some (g, { th with inst := g.weak th.key, pc := .lTest })
   | .lTest => some (g, { th with pc := if th.inst.isNone then .lAlloc else .xTouch })
-  | .lAlloc => some ({ g with next := g.next + 1 }, { th with tmp := some g.next, pc := .lInit })
+  | .lAlloc =>
+    if res th.key = .raises then some (g, { th with pc := .xRelX })      -- the constructor raises under the lock
+    else some ({ g with next := g.next + 1 }, { th with tmp := some g.next, pc := .lInit })
   | .lInit =>
     match th.tmp with
     | some i => some ({ g with inited := i :: g.inited }, { th with pc := .lSdRead })
@@ -203,6 +222,10 @@ def tstep (kd : Kind) (res : Key → Res) (t : Tid) (g : Glob) (th : Thread) : O
                      held := g.held ++ [{ key := th.key, id := i, ep := g.epoch, owner := t, seq := th.nret }] },
             { th with pc := .xRet, nret := th.nret + 1 })
     | none => none
+  | .xRelX =>                              -- `with` exit on the exceptional path, then the exception leaves the call
+    some ({ g with lock := none,
+                   log := g.log ++ [{ tid := t, key := th.key, val := none, cached := false, exc := true }] },
+          { th with pc := .idle, inst := none, tmp := none, seen := none })
   | .xRet =>
     some ({ g with log := g.log ++ [{ tid := t, key := th.key, val := th.inst, cached := true }] },
           { th with pc := .idle, inst := none })
@@ -214,12 +237,21 @@ def tstep (kd : Kind) (res : Key → Res) (t : Tid) (g : Glob) (th : Thread) : O
   | .gAlloc =>
     match res th.key with
     | .none => some (g, { th with inst := none, pc := .gCheck })
+    | .raises => some (g, { th with pc := .xRelX })
+    | .shared sl =>
+      match g.shared.lookup sl with
+      | some i => some (g, { th with inst := some i, pc := .gCheck })          -- the existing shared object
+      | none => some ({ g with next := g.next + 1 }, { th with tmp := some g.next, pc := .gInit })
     | _ => some ({ g with next := g.next + 1 }, { th with tmp := some g.next, pc := .gInit })
   | .gInit =>
     match th.tmp with
-    | some i => some ({ g with inited := i :: g.inited }, { th with inst := some i, tmp := none, pc := .gCheck })
+    | some i =>
+      some ({ g with inited := i :: g.inited,
+                     shared := match (res th.key).slot? with | some sl => (sl, i) :: g.shared | none => g.shared },
+            { th with inst := some i, tmp := none, pc := .gCheck })
     | none => none
-  | .gCheck => some (g, { th with pc := if res th.key = .zone then .gStore else .gRelE })
+  | .gCheck =>
+    some (g, { th with pc := if res th.key = .zone ∨ (res th.key).slot?.isSome then .gStore else .gRelE })
   | .gStore =>
     match th.inst with
     | some i => some ({ g with weak := upd g.weak th.key (some i) }, { th with pc := .xTouch })
@@ -246,11 +278,21 @@ def tstep (kd : Kind) (res : Key → Res) (t : Tid) (g : Glob) (th : Thread) : O
   | .cRel => some ({ g with lock := none }, { th with pc := .idle })
   -- ---------------- instance / nocache ----------------
   | .fAlloc =>
-    if kd = .gettz ∧ res th.key = .none then some (g, { th with tmp := none, pc := .fRet })
-    else some ({ g with next := g.next + 1 }, { th with tmp := some g.next, pc := .fInit })
+    if res th.key = .raises then
+      some ({ g with log := g.log ++ [{ tid := t, key := th.key, val := none, cached := false, exc := true }] },
+            { th with pc := .idle, tmp := none })
+    else if kd = .gettz ∧ res th.key = .none then some (g, { th with tmp := none, pc := .fRet })
+    else
+      match (if kd = .gettz then ((res th.key).slot?.bind fun sl => g.shared.lookup sl) else none) with
+      | some i => some (g, { th with tmp := some i, pc := .fRet })              -- nocache returns the shared object
+      | none => some ({ g with next := g.next + 1 }, { th with tmp := some g.next, pc := .fInit })
   | .fInit =>
     match th.tmp with
-    | some i => some ({ g with inited := i :: g.inited }, { th with pc := .fRet })
+    | some i =>
+      some ({ g with inited := i :: g.inited,
+                     shared := match (if kd = .gettz then (res th.key).slot? else none) with
+                               | some sl => (sl, i) :: g.shared | none => g.shared },
+            { th with pc := .fRet })
     | none => none
   | .fRet =>
     some ({ g with log := g.log ++ [{ tid := t, key := th.key, val := th.tmp, cached := false }] },
@@ -283,6 +325,7 @@ inductive Label
 /-- strong references to object `i`: the LRU, callers, local variables of any thread, the singleton slot -/
 def rooted (s : State) (i : Id) : Bool :=
   s.g.strong.any (fun e => e.2 == i) || s.g.held.any (fun r => r.id == i) || s.g.single == some i ||
+  s.g.shared.any (fun e => e.2 == i) ||
   s.ths.any (fun th => th.inst == some i || th.tmp == some i || th.seen == some i)
 
 def step (kd : Kind) (res : Key → Res) (s : State) : Label → Option State
@@ -420,11 +463,6 @@ def pyEq (a b : Zone) (same : Bool) : Bool :=
     | .f => false
     | .ni => fwd ()
   else fwd ()
-
-/-- `copy.copy`, `copy.deepcopy`, `pickle.loads(pickle.dumps(z, p))`: a new object rebuilt from the
-recorded state (`object.__reduce_ex__` → `copyreg.__newobj__` / `_reconstructor` + `__dict__`;
-`tzfile.__reduce_ex__` → `tzfile(None, filename)` + `__dict__`) -/
-def reconstruct (z : Zone) : Zone := z
 
 /-- the constant UTC offset of the fixed zones (seconds) -/
 def fixedOffset? : Zone → Option Int
